@@ -23,6 +23,13 @@ type Role struct {
 	Instr    bool // task is instrumented
 }
 
+// SrcExpr is a user-written argument expression of the source directive (Y only).
+type SrcExpr struct {
+	Name      string // _<line>_<col>
+	Text      string
+	Line, Col int
+}
+
 // Instance is one expanded directive: the wrapper closure and what is known about it.
 type Instance struct {
 	Key      string // semantic key: variant description or corpus file + directive position
@@ -36,6 +43,7 @@ type Instance struct {
 	Roles    map[string]Role // hoisted variable name -> role
 	Src      string
 	TypeErrs []string
+	SrcExprs []SrcExpr // argument expressions of the source directive (Y only)
 	T2       []string // hoisting-discipline problems found while rendering (X only)
 	// expectations from the description (X) / the source directive (Y)
 	NTasks, NPreds       int
